@@ -116,7 +116,10 @@ class MatrixGenerator:
             if exact_inv is not None:
                 matrix_inv = exact_inv
         assert np.array_equal(self.apply(matrix_inv), np.eye(self.n)), "Matrix is not invertible."
-        return MatrixGenerator.create(matrix_inv, self.modulo)
+        inverse = MatrixGenerator.create(matrix_inv, self.modulo)
+        # The inverse of the inverse is this matrix (a reduced modular inverse need not have an integer inverse of its own).
+        inverse.__dict__["inv"] = self
+        return inverse
 
     def __eq__(self, other: Any) -> bool:
         if not isinstance(other, MatrixGenerator):
